@@ -6,8 +6,10 @@ V = os.path.dirname(os.path.dirname(os.path.abspath(__file__)))
 COMMON_NOTE = ("Trusted: Coq 8.16.1 kernel + vm_compute (no native_compute, no axioms: Print Assumptions says 'Closed under the global "
                "context' for every property theorem); translator tools/gen (tables, constants, exports, toolchain oracle); extraction "
                "(ExtrOcamlBasic only) + ocaml/driver.ml; Go harness and ./check. Modelled, not verified: unicode/utf8 (Utf8.v, validated "
-               "against the real package), Go slice semantics, strings/bytes helpers. The tie between model and code is the correspondence "
-               "run (extracted model vs both packages on generated inputs), so a change no generated input distinguishes is not noticed.")
+               "against the real package), Go slice semantics, strings/bytes helpers. Every exported function has a hand-written structure-faithful "
+               "model (Impl*.v: same dispatch, loops, bounds checks, both package shapes, every configuration); the tie between model and code is the "
+               "correspondence run (extracted Impl and Spec models vs both packages, and vs the unexported strategies through hooks, on generated inputs), "
+               "so a change no generated input distinguishes is not noticed. Detection was measured on 40 independently written breaking changes (seeded/).")
 
 def spec_level(what):
     return ("Machine-checked theorems (coq/theories/Properties/%s) about the executable rune-sequence model Spec, for all byte strings; "
@@ -18,7 +20,9 @@ P = {
  "C01": ("proof", "4.C01", "Coq proof over executable model + differential correspondence (extracted OCaml vs Go)",
          "Spec.index is proved to be exactly the leftmost boundary-delimited match w.r.t. EqualFold (= strings.EqualFold by C02) for ALL byte strings; "
          "Index/Contains of both packages are compared with the extracted Spec and, on short inputs, with the property's own predicate evaluated with strings.EqualFold. "
-         "The structure-faithful model of Index itself (Impl) is not yet proved to refine Spec: strength for the code is that of the correspondence."),
+         "The structure-faithful model Impl6.Index (dispatch, brute force, Rabin-Karp, main loop) runs against the code and its unexported strategies under 4 configurations; proved to refine Spec so far: "
+         "the callees hasPrefixUnicode (incl. the exhausted flag and the length-ratio pre-check), IndexByte, IndexRune/indexRune/indexRuneCase (every rune, every cut-over) and indexRabinKarpUnicode (every prime); "
+         "the brute-force and main loops are tied by correspondence only."),
  "C02": ("proof", "4.C02", "Coq refinement proof (Impl.Compare/EqualFold = StdSpec.equal_fold) + correspondence + direct comparison with strings/bytes.EqualFold",
          "Impl.EqualFold (structure-faithful model of both package shapes) is proved equal to the model of strings.EqualFold (toolchain SimpleFold orbits) on all byte strings; "
          "the model of strings.EqualFold and the code are compared with the real functions on every case."),
@@ -32,15 +36,17 @@ P = {
          "views proved for Spec and checked by pointer on every correspondence case. Assumed and measured: that the summary over-approximates the compiled code (translator T3, allow-list of leaf functions, escape verdicts honoured); "
          "mallocs per call over 108 shapes (0 B .. 70 KB quick / 300 KB thorough, long needles, ill-formed, each fallback strategy) x 46 functions x 3 CPU-feature configurations."),
  "C06": ("proof", "4.C06", "Coq proof (Ok-totality of Impl where modelled, range theorems for Spec) + panic/hang/range observation on ill-formed corpus",
-         "Totality (no Panic, no OutOfFuel) is proved for the functions that have an Impl model (Compare, EqualFold, ...); for the others the theorem is the range of the Spec value and the absence of panics/hangs is observed "
-         "(recover, watchdog) on a dense ill-formed corpus incl. exhaustive small alphabets and uniform random bytes. Hardware-level over-reads are C13's subject."),
+         "Totality (Impl returns Ok: no Panic from a bounds check, no OutOfFuel) follows from the refinement theorems for Compare, EqualFold, HasPrefix, TrimPrefix, CutPrefix, HasSuffix, TrimSuffix, CutSuffix, "
+         "IndexByte, IndexByteASCII, IndexRune, ContainsRune, the Rabin-Karp search, and (given Index) Count and Cut; for the others the theorem is the range of the Spec value and the absence of panics/hangs is observed "
+         "(recover, watchdog) on a dense ill-formed corpus incl. exhaustive small alphabets. Reads outside the arguments: every exported function is called with its arguments flush against PROT_NONE pages on both sides."),
  "C07": ("proof", "4.C07", "Coq proof (package-shape parity of Impl where modelled, exported sets equal, _lower tables equal) + direct parity comparison of both packages",
-         "Both packages are compared with each other and with the same extracted Spec on every generated case of all 23 functions; parity of the two source shapes is proved where Impl models both."),
- "C08": ("proof", "4.C08", "Coq proof over executable model + differential correspondence", "As C01 for LastIndex (rightmost), plus Index<=LastIndex and same-match-set theorems."),
- "C09": ("proof", "4.C09", "Coq proof over executable model + differential correspondence", "Prefix/suffix tests and the exact cut points of Trim*/Cut* proved for Spec on all byte strings; returned sub-slices are compared by position."),
- "C10": ("proof", "4.C10", "Coq proof over executable model + differential correspondence (every code point as needle)", "First-member-of-orbit characterisation of index_rune and the byte-pattern characterisation of IndexByte proved; every orbit-bearing code point and a stride of the others run as needle and haystack member."),
- "C11": ("proof", "4.C11", "Coq proof over executable model + differential correspondence (threshold grid)", "First/last code point fold-equal to some code point of chars proved for Spec; the three internal strategies are crossed by a (len s, len chars) grid."),
- "C12": ("proof", "4.C12", "Coq proof over executable model + differential correspondence", "Greedy unfolding of Count and the exact split of Cut proved for Spec."),
+         "Both packages are compared with each other and with the same extracted Spec on every generated case of all 23 functions; parity of the two source shapes follows where both shapes are proved to refine the same Spec "
+         "(Compare, EqualFold, prefix family, suffix family, Rabin-Karp, Count general loop, Cut, single-character searches)."),
+ "C08": ("proof", "4.C08", "Coq proof over executable model + differential correspondence", "As C01 for LastIndex (rightmost), plus Index<=LastIndex and same-match-set theorems. Impl7.LastIndex (reverse Rabin-Karp) is modelled and run against the code; utf8.DecodeLastRune is proved to yield the last forward segment (Utf8Last); the refinement of LastIndex itself is not proved."),
+ "C09": ("proof", "4.C09", "Coq proof over executable model + differential correspondence", "Prefix/suffix tests and the exact cut points of Trim*/Cut* proved for Spec on all byte strings, and all six functions' structure-faithful models (both package shapes) are proved to compute exactly those Spec functions on all byte strings (Refine_Prefix, Refine_Suffix); returned sub-slices are compared by position."),
+ "C10": ("proof", "4.C10", "Coq proof over executable model + differential correspondence (every code point as needle)", "First-member-of-orbit characterisation of index_rune and the byte-pattern characterisation of IndexByte proved; IndexRune, ContainsRune, IndexByte, IndexByteASCII and the unexported indexRuneCase/indexRune/indexRune2/indexByte models are proved to refine them for every rune/byte argument, every cut-over function and both NativeIndex values (self-synchronisation of UTF-8 proved for arbitrary bytes; FoldMap/ToUpperLower candidate sets proved equal to the folding orbit on the regenerated tables). LastIndexByte is modelled and run against the code, not proved. Every orbit-bearing code point and a stride of the others run as needle and haystack member."),
+ "C11": ("proof", "4.C11", "Coq proof over executable model + differential correspondence (threshold grid)", "First/last code point fold-equal to some code point of chars proved for Spec; makeASCIISet and the three strategies of IndexAny/LastIndexAny are modelled (Impl7) and run against the code; their refinement is not proved. The strategies are crossed by a (len s, len chars) grid."),
+ "C12": ("proof", "4.C12", "Coq proof over executable model + differential correspondence", "Greedy unfolding of Count and the exact split of Cut proved for Spec; Count's general loop and Cut (both package shapes) proved to compute them given Index's specification (resuming after the matched text of the haystack, whose width differs from the needle's); Count's single-ASCII-byte kernel path is tied by correspondence."),
  "C13": ("other", "4.C13", "Coq proof for every pure-Go kernel body (unbounded length) + guard-page sweep of the amd64 assembly against the same scalar definition",
          "PARTIAL: the pure-Go kernel bodies (portable, no-POPCNT fallback, standard-library based) are proved equal to the scalar definition for every length and content; "
          "the amd64 assembly is NOT proved: it is swept (lengths 0..200 + page-crossing lengths quick / 0..4352 thorough, all alignments, flush against PROT_NONE pages both sides, "
